@@ -974,9 +974,11 @@ impl TransportHandle {
 
                 let peer_id = ant_peer_id_to_string(&ant_peer_id);
                 let remote_addr = NetworkAddress::from(remote_sock);
-                broadcast_event(&event_tx, P2PEvent::PeerConnected(peer_id.clone()));
+                // Register first, announce second: subscribers look the peer's address
+                // up in the registry as soon as they see PeerConnected.
                 register_new_peer(&peers, &peer_id, &remote_addr).await;
-                active_connections.write().await.insert(peer_id);
+                active_connections.write().await.insert(peer_id.clone());
+                broadcast_event(&event_tx, P2PEvent::PeerConnected(peer_id));
             }
         });
         *self.listener_handle.write().await = Some(handle);
